@@ -166,7 +166,46 @@ def run_lockstep(res, pid, seed, tier):
     return stats
 
 
-ABANDON_PCS = None
+def _abandon_one(exe, j):
+    """one schedule: step log of the real allocator -> replay abandon-lockstep; returns (job, harness rc, harness output, model output)"""
+    sd, nt, nops, env = j
+    cmd = [exe, "exit", str(sd), str(nt), str(nops), "alog"]
+    e = vlib.clean_env()
+    if env: e.update(env)
+    try:
+        p = subprocess.run(cmd, stdout=subprocess.PIPE, stderr=subprocess.PIPE, preexec_fn=vlib._limits, timeout=180, env=e, text=True, errors="replace")
+        rc, out = p.returncode, p.stdout
+    except subprocess.TimeoutExpired as ex:
+        o = ex.stdout or b""
+        rc, out = 124, (o.decode(errors="replace") if isinstance(o, bytes) else o) + "\nV livelock harness timeout\n"
+    logtxt = "\n".join(l for l in out.splitlines() if not l.startswith(("END", "V ", "O ", "D-", "D arena")))
+    rc2, mout = vlib.model_replay("abandon-lockstep", logtxt + "\n", timeout=600)
+    return j, rc, out, mout
+
+
+def replay_abandon_lockstep(res, pid, path):
+    """--replay of a C09_abandon_lockstep_*.sched file: the schedule (with its env variant) is run again through the lockstep"""
+    exe = build(res)
+    if exe is None: return
+    okb, txt = vlib.ocaml_build()
+    if not okb:
+        res.violation("model-build", "extracted model does not build: " + txt[-1200:]); return
+    txt = open(path).read()
+    m = re.search(r'schedule: ((?:\w+=\S+ )*) ?build/s_conc exit (\d+) (\d+) (\d+)', txt)
+    if not m:
+        res.violation("replay", "not an abandon-lockstep replay file: " + path); return
+    env = dict(kv.split("=", 1) for kv in m.group(1).split())
+    j, rc, out, mout = _abandon_one(exe, (int(m.group(2)), int(m.group(3)), int(m.group(4)), env))
+    mm = [l for l in mout.splitlines() if l.startswith("MISMATCH")]
+    d = re.search(r'DONE (\d+) (\d+)', mout)
+    if mm or not d or int(d.group(2)) != 0:
+        idx = mout.find("MISMATCH")
+        res.violation("corr:abandon-lockstep", "replay: " + (mout[idx:idx + 1500] if idx >= 0 else mout[-600:]), witness=None)
+    for kind, text in parse(rc, out)[0]:
+        if kind in KINDS.get(pid, {}).get("exit", ()):
+            res.violation("impl:" + kind, "replay: " + text, witness=txt)
+    res.cov["evaluations"] += 1; res.cov["distinct_nontrivial"] += 1
+    res.add_samples([m.group(0)])
 
 def run_abandon_lockstep(res, pid, seed, tier, envs=(None,)):
     """schedule-lockstep tie (S) of the abandonment / adoption model: the real allocator runs mode `exit` of s_conc.c under the
@@ -190,19 +229,7 @@ def run_abandon_lockstep(res, pid, seed, tier, envs=(None,)):
             jobs.append((seed * 100000 + 500 + i, 2 + (i % 4), (300 if big else 200) if i % 3 else 100, env))
     stats = collections.Counter(); hist = collections.Counter(); first = None
     def one(j):
-        sd, nt, nops, env = j
-        cmd = [exe, "exit", str(sd), str(nt), str(nops), "alog"]
-        e = vlib.clean_env()
-        if env: e.update(env)
-        try:
-            p = subprocess.run(cmd, stdout=subprocess.PIPE, stderr=subprocess.PIPE, preexec_fn=vlib._limits, timeout=180, env=e, text=True, errors="replace")
-            rc, out = p.returncode, p.stdout
-        except subprocess.TimeoutExpired as ex:
-            o = ex.stdout or b""
-            rc, out = 124, (o.decode(errors="replace") if isinstance(o, bytes) else o) + "\nV livelock harness timeout\n"
-        logtxt = "\n".join(l for l in out.splitlines() if not l.startswith(("END", "V ", "O ", "D-", "D arena")))
-        rc2, mout = vlib.model_replay("abandon-lockstep", logtxt + "\n", timeout=600)
-        return j, rc, out, mout
+        return _abandon_one(exe, j)
     with concurrent.futures.ThreadPoolExecutor(max_workers=int(vlib.JOBS)) as ex:
         for j, rc, out, mout in ex.map(one, jobs):
             stats["lockstep_logs"] += 1
